@@ -37,12 +37,18 @@ fn main() {
         env::cleanup_scratch();
         std::process::exit(code);
     }
-    if matches!(id.as_str(), "C07" | "C08" | "C11D" | "C13D" | "C14D" | "C18" | "C20") && args.get(2).map(|s| s.as_str()) == Some("--worker") {
+    if matches!(id.as_str(), "C07" | "C08" | "C11D" | "C13D" | "C14D" | "C16D" | "C18" | "C20") && args.get(2).map(|s| s.as_str()) == Some("--worker") {
         let seed: u64 = args[3].parse().unwrap_or(1);
         let lane: u64 = args[4].parse().unwrap_or(0);
         let count: u32 = args[5].parse().unwrap_or(1);
         let wtier = if args.get(7).map(|s| s.as_str()) == Some("thorough") { Tier::Thorough } else { Tier::Quick };
         let code = props::concprops::worker(&id, seed, lane, count, &args[6], wtier);
+        env::cleanup_scratch();
+        std::process::exit(code);
+    }
+    if id == "C18" && args.get(2).map(|s| s.as_str()) == Some("--single") {
+        let limit: u64 = args.get(4).and_then(|s| s.parse().ok()).unwrap_or(60_000);
+        let code = props::concprops::single(&args[3], limit);
         env::cleanup_scratch();
         std::process::exit(code);
     }
